@@ -56,7 +56,7 @@ WriteRmw(m, t, x, o)   == [m EXCEPT !.V = (x :> Join(View(m, x), StoreView(m, t,
 Atomic(m0, e) ==
   LET t == e.t
       x == Loc(e)
-      m == [m0 EXCEPT !.ords = @ \cup {<<e.loc, e.k, e.o, e.fo>>}]
+      m == [m0 EXCEPT !.ords = @ \cup {<<e.loc, e.r, e.k, e.o, e.fo>>}]
   IN CASE e.k = "load"  -> Tick(ReadPart(m, t, x, e.o), t)
        [] e.k = "store" -> Tick(WriteStore(m, t, x, e.o), t)
        [] e.k \in {"swap", "add", "sub"} -> Tick(WriteRmw(ReadPart(m, t, x, e.o), t, x, e.o), t)
